@@ -32,6 +32,8 @@ func main() {
 		genC04(*out, *tier, *seed)
 	case "C05":
 		genC05(*out, *tier, *seed)
+	case "C06":
+		genC06(*out, *tier, *seed)
 	case "C07":
 		genC07(*out, *tier, *seed)
 	case "C08":
